@@ -127,11 +127,17 @@ func listAll(e *env, v url.Values, size int) string {
 	return fmt.Sprintf("%d:%s", len(all), hx(strings.Join(all, "|")))
 }
 
-func concRequests(r *rng, nss []*namespace.Namespace, motifQ []*ketoapi.RelationTuple) []*concReq {
+func concRequests(r *rng, nss []*namespace.Namespace, motifQ []*ketoapi.RelationTuple, costly func(*ketoapi.RelationTuple) bool) []*concReq {
 	var reqs []*concReq
 	var qs []*ketoapi.RelationTuple
 	for i := 0; i < 20; i++ {
 		q := egQuery(r, nss)
+		for try := 0; try < 6 && costly(q); try++ { // see costBudget: exponentially expensive requests are not part of this suite
+			q = egQuery(r, nss)
+			if try == 5 {
+				q.Relation = "nope"
+			}
+		}
 		rd := 0
 		if r.chance(1, 4) {
 			rd = r.intn(11) - 3
@@ -346,7 +352,7 @@ func suiteConc(t *testing.T, cfg cfgT) {
 			}
 		}
 		eeA.table(out)
-		reqs := concRequests(hr, nss, motifQ)
+		reqs := concRequests(hr, nss, motifQ, func(q *ketoapi.RelationTuple) bool { return eeA.costly(q, 0) })
 		if ladderQ != nil {
 			for _, rd := range []int{1, 2, 3, 4, 0} {
 				q, rd := ladderQ, rd
